@@ -36,9 +36,11 @@ def make_config(seed, tier="quick"):
         slots = [("app_u8" if k == "app" and r8.random() < 0.6 else k) for k in slots]
     u8_live = r8.random() < 0.3
     rich_slots = r8.random() < 0.3
+    user_groups = r8.random() < 0.15
     return dict(
         u8_live=u8_live,
         rich_slots=rich_slots,
+        user_groups=user_groups,
         seed=seed,
         eut_role=r.choice(["acceptor", "initiator"]),
         hb=1000,
@@ -117,6 +119,10 @@ class ResendSim(PeerSim):
                     body.append(("58", (U8_TEXTS[n % len(U8_TEXTS)] + f" {n}").encode("utf-8")))
                 else:
                     body.append(("58", f"text {n} a=b"))
+                if cfg.get("user_groups") and n % 2 == 0:
+                    # a user-defined repeating group (tags the protocol table does not list as a group), as an
+                    # application builds it with set_group(): sent and journaled like any other message
+                    body += [("20228", "2"), ("20229", "a"), ("20230", f"b{n}"), ("20229", "c"), ("20230", "d")]
                 if cfg.get("rich_slots") and n % 3 == 0:
                     # repeating groups (flat and nested): a retransmission carries every entry, in order
                     body += [("453", "2"), ("448", f"TRADER-{n}"), ("447", "D"), ("452", "12"),
